@@ -37,7 +37,12 @@ EXTRA = {"C01-2": ["C07"], "C04-1": ["C07"], "C06-2": ["C07"], "C03-b1": ["C07"]
          "C05-w1": ["C04"], "C05-w2": ["C13", "C01"], "C06-w2": ["C19"], "C07-w1": ["C02", "C09"], "C07-w2": ["C16"], "C08-w1": ["C17"],
          "C08-w2": ["C12"], "C09-w1": ["C07", "C02"], "C09-w2": ["C12", "C10"], "C10-w1": ["C13"], "C10-w2": ["C13"], "C11-w1": ["C04"],
          "C11-w2": ["C01"], "C12-w1": ["C08"], "C13-w2": ["C04"], "C15-w1": ["C10", "C05"], "C15-w2": ["C14", "C11"], "C16-w1": ["C08"],
-         "C16-w2": ["C08", "C13"], "C17-w1": ["C11"], "C17-w2": ["C05"], "C18-w2": ["C13"], "C19-w1": ["C06"], "C20-w2": ["C14"]}
+         "C16-w2": ["C08", "C13"], "C17-w1": ["C11"], "C17-w2": ["C05"], "C18-w2": ["C13"], "C19-w1": ["C06"], "C20-w2": ["C14"],
+         "C01-y1": ["C15"], "C01-y2": ["C10", "C04", "C05"], "C02-y2": ["C08", "C13"], "C04-y2": ["C13", "C05"], "C08-y1": ["C05", "C03", "C17"],
+         "C10-y1": ["C05", "C13"], "C10-y2": ["C04"], "C11-y2": ["C13", "C08"], "C12-y1": ["C08", "C16"], "C13-y1": ["C05", "C08"],
+         "C13-y2": ["C03"], "C14-y1": ["C15", "C20"], "C14-y2": ["C15"], "C17-y1": ["C06", "C19"], "C17-y2": ["C10", "C05"],
+         "C18-y2": ["C04", "C05"], "C03-y1": ["C05", "C13"], "C03-y2": ["C13"], "C06-y1": ["C19", "C17"], "C06-y2": ["C19", "C05", "C15"],
+         "C09-y1": ["C10"], "C09-y2": ["C13", "C12"]}
 def run_one(name, checks):
     d = os.path.join(SEEDED, name)
     wt = tempfile.mkdtemp(prefix="hsv-mx-", dir="/tmp"); os.rmdir(wt)
